@@ -15,12 +15,15 @@
 package c33
 
 import (
+	"bufio"
+	"bytes"
 	"encoding/binary"
 	"fmt"
 	"io"
 	"math/rand"
 	"net"
 	"runtime"
+	"strings"
 	"sync"
 	"sync/atomic"
 	"testing"
@@ -58,6 +61,72 @@ func perturb(rnd *rand.Rand) {
 }
 
 var spinSink atomic.Int64
+
+// wEntry is one way of pushing bytes into a conn. The entry points are discovered by interface
+// assertion on the conn value, so that every write path of the implementation is driven.
+type wEntry struct {
+	name string
+	do   func(conn net.Conn, p []byte) (int, error)
+}
+
+func writeEntries(conn net.Conn) []wEntry {
+	es := []wEntry{{"Write", func(c net.Conn, p []byte) (int, error) { return c.Write(p) }}}
+	if _, ok := conn.(io.StringWriter); ok {
+		es = append(es,
+			wEntry{"WriteString", func(c net.Conn, p []byte) (int, error) { return c.(io.StringWriter).WriteString(string(p)) }},
+			wEntry{"io.WriteString", func(c net.Conn, p []byte) (int, error) { return io.WriteString(c, string(p)) }},
+			wEntry{"bufio.WriteString", func(c net.Conn, p []byte) (int, error) {
+				// a string at least as large as the (empty) buffer is handed to the conn's WriteString directly
+				if len(p) <= 16 {
+					return c.(io.StringWriter).WriteString(string(p)) // would only be buffered
+				}
+				bw := bufio.NewWriterSize(c, 16)
+				n, err := bw.WriteString(string(p))
+				if err == nil {
+					err = bw.Flush()
+				}
+				return n, err
+			}})
+	}
+	if _, ok := conn.(io.ReaderFrom); ok {
+		es = append(es, wEntry{"ReadFrom", func(c net.Conn, p []byte) (int, error) {
+			n, err := c.(io.ReaderFrom).ReadFrom(bytes.NewReader(p))
+			return int(n), err
+		}})
+	}
+	if _, ok := conn.(io.ByteWriter); ok {
+		es = append(es, wEntry{"WriteByte", func(c net.Conn, p []byte) (int, error) {
+			if len(p) > 64 {
+				return c.Write(p)
+			}
+			for i, b := range p {
+				if err := c.(io.ByteWriter).WriteByte(b); err != nil {
+					return i, err
+				}
+			}
+			return len(p), nil
+		}})
+	}
+	return es
+}
+
+// undrivenEntries lists entry points the conn offers which this check has no driver for.
+func undrivenEntries(conn net.Conn) []string {
+	var out []string
+	if _, ok := conn.(io.WriterTo); ok {
+		out = append(out, "io.WriterTo")
+	}
+	if _, ok := conn.(io.ByteReader); ok {
+		out = append(out, "io.ByteReader")
+	}
+	if _, ok := conn.(io.ReaderAt); ok {
+		out = append(out, "io.ReaderAt")
+	}
+	if _, ok := conn.(io.WriterAt); ok {
+		out = append(out, "io.WriterAt")
+	}
+	return out
+}
 
 var bufPool = sync.Pool{New: func() any { b := make([]byte, 5000); return &b }}
 
@@ -118,6 +187,8 @@ type pipeCase struct {
 	trig, trigDir, trigK, closeVia int
 	gatedDir                       int // -1 none
 
+	entries []wEntry
+
 	mu   sync.Mutex
 	feat map[string]int
 }
@@ -177,8 +248,10 @@ func (c *pipeCase) writer(d int, rnd *rand.Rand) {
 		for j := 0; j < size; j++ {
 			buf[j] = seq(d, pos+int64(j))
 		}
+		ent := c.entries[rnd.Intn(len(c.entries))]
+		c.note("entry:"+ent.name, 1)
 		inv := c.clock.Add(1)
-		n, err := conn.Write(buf[:size])
+		n, err := ent.do(conn, buf[:size])
 		c.clock.Add(1)
 		for j := 0; j < size; j++ {
 			buf[j] = 0xA5 // the pipe must have copied the data
@@ -198,7 +271,7 @@ func (c *pipeCase) writer(d int, rnd *rand.Rand) {
 				c.note("zero_write", 1)
 			}
 			if cr := c.closeReturned.Load(); cr != 0 && inv > cr {
-				c.viol("write-succeeded-after-close", fmt.Sprintf("dir %d: Write(%d bytes) invoked at t=%d after Close returned at t=%d succeeded", d, size, inv, cr), map[string]any{"size": size})
+				c.viol(afterCloseKey(ent.name), fmt.Sprintf("dir %d: %s(%d bytes) invoked at t=%d after Close returned at t=%d succeeded", d, ent.name, size, inv, cr), map[string]any{"size": size, "entry": ent.name})
 			}
 			if c.trig == trigWriter && c.trigDir == d && okWrites == c.trigK {
 				c.doClose()
@@ -239,6 +312,13 @@ func (c *pipeCase) writer(d int, rnd *rand.Rand) {
 			return
 		}
 	}
+}
+
+func afterCloseKey(entry string) string {
+	if entry == "Write" {
+		return "write-succeeded-after-close"
+	}
+	return strings.ToLower(strings.ReplaceAll(entry, ".", "-")) + "-succeeded-after-close"
 }
 
 // check verifies p against the stream at position pos; returns false after recording a violation.
@@ -380,6 +460,7 @@ func runPipeCase(r *mon.Run, i int) {
 	rnd := r.Rand("pipe", i)
 	c := &pipeCase{r: r, idx: i, pc: fasthttputil.NewPipeConns(), gate: make(chan struct{}), feat: map[string]int{}, gatedDir: -1}
 	c.cn[0], c.cn[1] = c.pc.Conn1(), c.pc.Conn2()
+	c.entries = writeEntries(c.cn[0])
 	c.wpre[0].Store(-1)
 	c.wpre[1].Store(-1)
 	c.trig = rnd.Intn(4)
@@ -469,16 +550,39 @@ func runPipeCase(r *mon.Run, i int) {
 		if eof[d] {
 			r.Event("pipe_eof_checked", 1)
 		}
-		// a Write invoked now must fail (Close returned long ago)
-		if n, err := c.cn[d].Write([]byte{1}); err == nil {
-			c.viol("write-succeeded-after-close", fmt.Sprintf("dir %d: Write after all Close calls returned = %d, nil", d, n), nil)
+	}
+	// Both directions are drained (EOF seen, nothing queued). Every write entry point, on both ends, invoked
+	// now (all Close calls returned long ago) must fail and deliver nothing: reading again must still give EOF.
+	for d := 0; d < 2; d++ {
+		for _, ent := range c.entries {
+			for _, size := range []int{1, 40, 0} {
+				for j := 0; j < size; j++ {
+					buf[j] = 0x5C
+				}
+				if n, err := ent.do(c.cn[d], buf[:size]); err == nil || n != 0 {
+					c.viol(afterCloseKey(ent.name), fmt.Sprintf("dir %d: %s(%d bytes) on a closed, fully drained pipe = %d, %v", d, ent.name, size, n, err), map[string]any{"size": size, "entry": ent.name})
+				}
+				r.Event("write_after_close_judged", 1)
+			}
 		}
-		r.Event("write_after_close_judged", 1)
+	}
+	for d := 0; d < 2; d++ {
+		for k := 0; k < 2; k++ {
+			n, err := c.cn[1-d].Read(buf[:64])
+			if n != 0 || err != io.EOF {
+				c.viol("data-delivered-after-close", fmt.Sprintf("dir %d: Read after EOF on a closed pipe = %d, %v (%x): a write invoked after Close delivered bytes, or EOF is not sticky", d, n, err, buf[:n]), nil)
+				break
+			}
+			r.Event("reads_after_eof_still_eof", 1)
+		}
 	}
 	r.Event("write_after_close_judged", c.feat["write_after_close_judged"])
 	r.Event("pipe_read_timeouts", c.feat["read_timeout"])
 	r.Event("pipe_write_timeouts", c.feat["write_timeout"])
 	r.Event("pipe_gated_readers", c.feat["gated_reader"])
+	for _, ent := range c.entries {
+		r.Event("writes_via_"+ent.name, c.feat["entry:"+ent.name])
+	}
 	r.Event("pipe_cases", 1)
 
 	total := int(rpos[0] + rpos[1])
@@ -724,7 +828,7 @@ func runListenerCase(r *mon.Run, i int) {
 func TestC33(t *testing.T) {
 	r := mon.Start(t, "C33")
 	defer r.Finish()
-	r.Rule("pipe case = one PipeConns, per direction one writer goroutine (1-30 writes of 0-5000 bytes, content = f(direction, stream position), PRNG write deadlines) and one reader goroutine (reads of 0-5000 bytes until EOF, PRNG read deadlines), Close via Conn1/Conn2/PipeConns at a PRNG point (after the k-th write, after the k-th read, from a third goroutine, or after the writers finished; 1 in 5 cases the reader only starts after Close returned), PRNG Gosched/spin/sleep between operations; " +
+	r.Rule("pipe case = one PipeConns, per direction one writer goroutine (1-30 writes of 0-5000 bytes through a PRNG-chosen write entry point of the conn - Write plus whatever io.StringWriter / io.ReaderFrom / io.ByteWriter the value implements, also via io.WriteString and bufio.Writer.WriteString -, content = f(direction, stream position), PRNG write deadlines) and one reader goroutine (reads of 0-5000 bytes until EOF, PRNG read deadlines), Close via Conn1/Conn2/PipeConns at a PRNG point (after the k-th write, after the k-th read, from a third goroutine, or after the writers finished; 1 in 5 cases the reader only starts after Close returned), PRNG Gosched/spin/sleep between operations; " +
 		"listener case = 1-8 dialers x 1-8 acceptors x one closer on one InmemoryListener, each Dial sends a unique 8-byte token and waits for the 16-byte reply of the accepting side; " +
 		"distinct = feature vectors (trigger, closing end, gated reader, deadlines set, timeouts hit, zero writes, partial reads, byte volume | dialers, acceptors, pairs, orphan accepts, operations after close); non-trivial = bytes flowed and Close was not the trivial end-of-case close (pipe) / at least one Dial was paired (listener)")
 	r.Assume("documented contract only: one writer goroutine and one reader goroutine per direction; deadlines are set by the goroutine that uses them; Close may come from any goroutine")
@@ -733,6 +837,19 @@ func TestC33(t *testing.T) {
 	r.Assume("an Accept may return an already closed conn whose Dial gave up because of a concurrent Close (Dial returned an error): the statement only constrains successful Dials (counted as skipped_accept_of_conn_whose_dial_gave_up)")
 	r.Assume("deadlines are perturbation only; the oracle never depends on whether a timeout fired, only that a timeout is reported when some deadline had been set")
 
+	{
+		pc := fasthttputil.NewPipeConns()
+		var names []string
+		for _, e := range writeEntries(pc.Conn1()) {
+			names = append(names, e.name)
+		}
+		r.Set("write_entry_points_driven", names)
+		if u := undrivenEntries(pc.Conn1()); len(u) > 0 {
+			r.Set("entry_points_not_driven", u)
+			r.Inconclusive(fmt.Sprintf("the pipe conn implements %v, for which this check has no driver", u))
+		}
+		pc.Close()
+	}
 	nPipe := r.N(10_000, 400_000)
 	nLn := r.N(2_500, 100_000)
 	total := nPipe + nLn
@@ -771,6 +888,10 @@ func TestC33(t *testing.T) {
 		r.Require("pipe_eof_checked", nPipe)
 		r.Require("ln_pairs_verified", nLn)
 		r.Require("write_after_close_judged", nPipe*2)
+		r.Require("reads_after_eof_still_eof", nPipe*3)
+		if _, ok := fasthttputil.NewPipeConns().Conn1().(io.StringWriter); ok {
+			r.Require("writes_via_WriteString", nPipe)
+		}
 		r.Require("ln_after_close_judged", nLn*2)
 	}
 }
